@@ -131,6 +131,16 @@ CHECKS = {
              "pins and by driving the real _fit_2D_poly with scripted fits through every branch against the model evaluated in Coq. PARTIAL: "
              "the numerical accuracy of the LU fit and wcslib's reading of the header are measured on a dense grid (tested), not proved.",
         ref="5 C10", technique="Coq proof over rationals (hand model) + AST pins + scripted-fit correspondence + wcslib dense-grid differential"),
+    "C16": dict(
+        text="Theorems about a model of the unit handling that is generic in the number type (the same Gallina code is executed over Q and reasoned "
+             "about over R, so units with irrational factors such as rad are covered): the unit-carrying WCS and its unit-free twin return the "
+             "same bare numbers from both values interfaces and the same objects from pixel_to_world, for every numeric core, every unit "
+             "assignment of matching dimension; a position given as quantities in ANY convertible units inverts like the same position in frame "
+             "units (both forms, over R); a SkyCoord in any frame inverts like the same position in the reference frame (astropy's conversion as "
+             "oracle); pixel quantities in a wrong unit are rejected in both forms; with_units results carry the declared units. Tied by AST pins "
+             "and by running five interfaces of generated twin pairs (numbers, quantities, SkyCoord in five frames, SpectralCoord, Time, pixel "
+             "quantities; error classes included) against the Q instance in Coq. Composite frames exercised by the oracle only.",
+        ref="5 C16", technique="Coq proof over generic (Q/R) hand model + AST pins + vm_compute correspondence incl. error classes + twin oracle"),
     "C11": dict(
         text="Theorems over the rationals about the -TAB bookkeeping: node_exact (the FITS reader's index at the pixel of node k is "
              "exactly k+1 for every box and sampling: the tabulated value, no interpolation), table_spans_box, index_affine, "
